@@ -20,7 +20,7 @@ from hypothesis import strategies as st
 
 from props import iter_common
 from vlib import dsops, history, oracles
-from vlib.core import Stage
+from vlib.core import Stage, hang_is_violation
 
 ID = "C12"
 LEVEL = "exploration"
@@ -216,5 +216,8 @@ STAGES = [
               "thorough": 8000
           },
           fork=True,
-          rust=True)
+          rust=True,
+          timeout=150,
+          timeout_violation=hang_is_violation(
+              "selection", "a pass over a selection of shards"))
 ]
